@@ -203,6 +203,15 @@ claim('C21',
       'distances, isclose); independent enumeration over a +-5 cell box.',
       'DESIGN.md 3/C21')
 
+claim('C31',
+      'Bounded symbolic verification: real cluster.makeclusters executed with a SYMBOLIC cutoff (one path per interval between pair '
+      'distances): per path the generated set equals the independent enumeration of all site sets up to order 3 whose sites are pairwise '
+      'within the cutoff (membership decided by z3), orbits disjoint, each a single closed symmetry orbit, excluded species absent; '
+      'makeTSclusters / makeVacancyClusters results closed under the space group (TS: and reversal). Cluster equality/hash invariance '
+      'under translation and reordering is decided in C36.',
+      'Crystals, order, exclusions enumerated; cutoff over stated intervals with a 1e-6 guard band around squared pair distances.',
+      'DESIGN.md 3/C31')
+
 na('C01', 'exact oracle is an infinite-state pair Markov chain reached through Brillouin-zone quadrature, LAPACK and hyp1f1/expi; '
           'agreement only to integration accuracy: no algebraic statement a solver can decide (DESIGN 5)')
 na('C06', 'identities hold only for the true lattice Green function of the omega0 network (numerical k-space integration); '
